@@ -76,6 +76,61 @@ def mixed_family(rnd, n, tag="x"):
                     with_construct=True, with_transform=(i % 2 == 1), with_coef=(i % 3 == 1)) for i in range(n)]
 
 
+NON_NESTED = ["gauss-legendre", "gauss-legendre-odd", "gauss-chebyshev1", "gauss-chebyshev2-odd", "gauss-gegenbauer", "gauss-jacobi", "gauss-laguerre",
+              "gauss-hermite-odd", "chebyshev", "chebyshev-odd", "custom-tabulated", "custom-tabulated"]
+
+
+def nonnested_history(rnd, label):
+    """Global grids with non-nested rules (Gauss families with their parameters, a custom tabulated rule): make, transforms, loads,
+    continuing on the restored object, copies.  Their point numbering is an observation of the specification, refinement is not
+    documented for them."""
+    d = rnd.choice([1, 2, 2, 3])
+    rule = rnd.choice(NON_NESTED)
+    outs = rnd.choice([0, 1, 2])
+    t = rnd.choice(["level", "level", "iptotal", "qptotal", "tensor", "hyperbolic", "qpcurved"])
+    aw = []
+    if rnd.random() < 0.4:
+        aw = [rnd.randint(1, 3) for _ in range(d)] + ([rnd.randint(0, 2) for _ in range(d)] if t in ("qpcurved",) else [])
+        if t == "hyperbolic":
+            aw = []
+    depth = rnd.randint(1, {1: 5, 2: 3, 3: 2}[d] - (1 if rule.endswith("odd") else 0))
+    if t == "tensor":
+        depth = min(depth, 2)
+        aw = aw[:d] if aw else []
+    if t in ("iptotal", "qptotal", "qpcurved"):
+        depth += 2
+    if rule.startswith("gauss-j"):
+        alpha, beta = rnd.choice([(0.5, 1.5), (1.0, 0.0), (2.0, 1.0)])
+    elif "gegenbauer" in rule or "laguerre" in rule or "hermite" in rule:
+        alpha, beta = rnd.choice([0.0, 0.5, 2.0]), 0.0
+    else:
+        alpha, beta = 0.0, 0.0
+    L = ["SCEN " + label, "make global %d %d %d %s %s %s %s %g %g" % (d, outs, depth, t, rule, ivec(aw), ivec(rnd_limits(rnd, d, 0, 3, 0.6)), alpha, beta)]
+    epoch = 0
+    for _ in range(rnd.randint(2, 5)):
+        k = rnd.random()
+        if k < 0.25:
+            if "laguerre" in rule or "hermite" in rule:
+                a = [rnd.choice([-1, 0, 2]) for _ in range(d)]
+                b = [rnd.choice([1, 2, 4, 0.5]) for _ in range(d)]
+            else:
+                a = [rnd.choice([-2, -1, 0, 1]) for _ in range(d)]
+                b = [x + rnd.choice([1, 2, 4]) for x in a]
+            L.append("transform %d %s %d %s" % (d, " ".join(map(str, a)), d, " ".join(map(str, b))))
+        elif k < 0.5 and outs > 0:
+            epoch += 1
+            L.append("load %d" % epoch)
+        elif k < 0.7:
+            L.append("rtswap %d" % rnd.randint(0, 1))
+        elif k < 0.85:
+            L.append(rnd.choice(["@2 copyctor", "@2 assign", "@2 copy 0 -1"]))
+        elif k < 0.93:
+            L.append("@2 rtswap %d" % rnd.randint(0, 1))
+        else:
+            L.append(rnd.choice(["cleartransform", "clearlimits"]))
+    return "\n".join(L) + "\n"
+
+
 def ivec(v):
     return "%d %s" % (len(v), " ".join(str(x) for x in v)) if v else "0"
 
